@@ -29,7 +29,29 @@ def live_session(sim: Sim, psk_dev: bytes = PSK) -> tuple[Any, Any, Any, list[An
     return cli, dev, c0, got
 
 
+def deviation_at_the_deadline(ctx: Ctx) -> None:
+    """The deviating handshake answer (another key -> error frame, another name) and the 30 s handshake deadline fall into one loop iteration (answer
+    exactly at the deadline / process stopped across it): the frame is handled first and ends the session with its specific error, 'which is
+    also what a pending readiness wait receives' - the connect call must not report something else."""
+    from vf.sim import sweep
+
+    res = ctx.res
+    for idx, (label, spec) in enumerate(sweep.deadline_specs(("noise",), ("other-key", "other-name"))):
+        if not ctx.mine(900 + idx):
+            continue
+        obs = sweep.run_spec(spec)
+        res.evaluations += 1
+        res.count("S/deviation-at-the-deadline")
+        res.sig("S-deadline", label)
+        if obs.harness_errors:
+            res.inconclusive.append("C04 part S: " + obs.harness_errors[0][-300:])
+            continue
+        for _k, what in sweep.masked_first_cause(obs):
+            res.violation("C04/S/readiness-wait-got-other-error", f"{label}: {what}", {"part": "S", "spec": spec}, trace=obs.trace[-40:])
+
+
 def shard(ctx: Ctx) -> None:
+    deviation_at_the_deadline(ctx)
     from aioesphomeapi import api_pb2 as pb
     from aioesphomeapi.core import APIConnectionError, HandshakeAPIError, InvalidEncryptionKeyAPIError, ProtocolAPIError
 
